@@ -172,3 +172,37 @@ Theorem C12_transparent_refuted_at_maxint64_original :
     maybe_deflate_original inflate _ decoder data max_int64 <> decoder d.
 Proof. exact transparent_refuted_original. Qed.
 Print Assumptions C12_transparent_refuted_at_maxint64_original.
+
+(* ---- tie to the source text of this run (gen/funcs.go, unit GenDeflate): maybeDeflate and parseResponse as TRANSLATED from
+   decode_response.go (int64 arithmetic with wrap-around, the closure parameter as a transformer of the state it captures,
+   every nil dereference an explicit panic outcome) compute exactly the hand-written model the theorems above are about, for
+   every input and every behaviour of the oracles — error values included ---- *)
+From V Require Import Xml GenPrelude GenPreludeDeflate GenDeflate P_GenDeflate.
+
+(* for the closure that stands for [decoder] (its state: the value of the last accepting call) *)
+Theorem C12_source_maybeDeflate_is_the_model :
+  forall (inflate : string -> Z -> string * bool) (A : Type) (decoder : string -> res A) (data : string) (max_size : Z) (w0 : option A),
+  G_maybeDeflate inflate (option A) data max_size (closure_of decoder) w0
+  = PVal (closure_out Some (maybe_deflate inflate A decoder data max_size) None).
+Proof. exact G_maybeDeflate_is_model. Qed.
+Print Assumptions C12_source_maybeDeflate_is_the_model.
+
+(* for EVERY closure [d] over any captured state W that implements [decoder] as far as P observes the state *)
+Theorem C12_source_maybeDeflate_is_the_model_for_every_closure :
+  forall (inflate : string -> Z -> string * bool) (W A : Type) (d : string -> W -> pm (res unit * W)) (decoder : string -> res A)
+         (P : A -> W -> Prop),
+  (forall x w, exists o, d x w = PVal o /\ closure_spec P (decoder x) o) ->
+  forall data max_size w, exists o,
+    G_maybeDeflate inflate W data max_size d w = PVal o /\ closure_spec P (maybe_deflate inflate A decoder data max_size) o.
+Proof. exact G_maybeDeflate_spec. Qed.
+Print Assumptions C12_source_maybeDeflate_is_the_model_for_every_closure.
+
+(* parseResponse incl. the function literal it hands to maybeDeflate (doc, rawXML are the captured state); the result is
+   (doc, doc.Root(), nil) with the document represented by its root *)
+Theorem C12_source_parseResponse_is_the_model :
+  forall (inflate : string -> Z -> string * bool) (read_from_bytes : string -> option node * bool) (rt_ok : string -> bool)
+         (data : string) (max_size : Z),
+  G_parseResponse inflate read_from_bytes rt_ok data max_size
+  = PVal (parse_result (parse_response inflate node (parse_of read_from_bytes) rt_ok data max_size)).
+Proof. exact G_parseResponse_is_model. Qed.
+Print Assumptions C12_source_parseResponse_is_the_model.
